@@ -1,6 +1,7 @@
 import PyYetiVerif.Model.BulkGrid
 import PyYetiVerif.Model.BulkDmigX
 import PyYetiVerif.Model.BulkMulti
+import PyYetiVerif.Model.BulkReal
 /-! Line protocol for C13 (text travels as lowercase hex of its ASCII bytes; a file is its
 lines joined by `0a`).
 
@@ -15,6 +16,8 @@ lines joined by `0a`).
   rdspoints|rdcsupers|rdextrn|rdsets|rddmig <hextext>,  rdtabled1 <hexname> <hextext>
       rddmig → name|form|mtype|rows|cols|frame  (frame: rows `/`-separated, entries `re@im`)
   rddmigx <expanded 0|1> <square 0|1> <hextext>   → like rddmig (`rddmig(f, expanded=…, square=…)`)
+  pye <w> <p> <e|E|D> <bits>    → hex text of `'{:w.pE}'.format(x)` (x = the double with that bit pattern), pyf <w> <p> <bits> likewise
+  dmigr <hexname> <single 0|1> <mtype> <nr> <nc> rowids colids entries(2·nr·nc bit patterns, row major re im) → hex text
   fileok <seg>…                 → ok | bad      (`fileOKb bulkReaders`; <seg> = c<owner>/<hexline>/… | j/<hexline>/…)
   vecw  <arg>…                  → hex text of the rows (`" ".join`) | error:ValueError | error:IndexError
       <arg> = s <int>  |  v <k> <int>×k
@@ -240,6 +243,21 @@ def answer (line : String) : String :=
   | ["rdsets", t] => match rdSets (linesOf t) with
       | some d => ";".intercalate (d.map fun (k, v) => fmtVal k ++ "=" ++ " ".intercalate (v.map toString))
       | none => "error"
+  | ["pye", w, p, ec, b] => match w.toNat?, p.toNat?, b.toNat? with
+      | some w, some p, some b => toHex (pyE w p (ec.toList.headD 'E') (dblOf b))
+      | _, _, _ => "bad-op"
+  | ["pyf", w, p, b] => match w.toNat?, p.toNat?, b.toNat? with
+      | some w, some p, some b => toHex (pyF w p (dblOf b))
+      | _, _, _ => "bad-op"
+  | "dmigr" :: nm :: sg :: mt :: nr :: nc :: ws => match mt.toNat?, nr.toNat?, nc.toNat?, parseInts ws with
+      | some mt, some nr, some nc, some xs =>
+          let rowids := pairsOfInts (xs.take (2 * nr))
+          let colids := pairsOfInts ((xs.drop (2 * nr)).take (2 * nc))
+          let ents := pairsOfInts (xs.drop (2 * nr + 2 * nc))
+          let d : Dmig := { name := ofHex nm, single := sg == "1", mtype := mt, rowids := rowids,
+                            colids := colids, m := chunks nc ents }
+          fileHex d.linesR
+      | _, _, _, _ => "bad-op"
   | "fileok" :: ws =>
       let segs : List (Option Seg) := ws.map fun w =>
         match w.splitOn "/" with
